@@ -1,17 +1,431 @@
 package sym
 
 import (
+	"fmt"
+	"os"
+	"sync"
+	"regexp/syntax"
+
 	"verif/gosym/smt"
 )
 
+// Regexp model for symbolic (exploded, ASCII) strings. The pattern is parsed
+// and compiled by regexp/syntax - the same front end the real regexp package
+// uses - and the resulting program is simulated over the symbolic bytes:
+//
+//   - MatchString: Thompson simulation, one Bool term per (position, pc).
+//   - FindStringSubmatch (patterns anchored at both ends): the Pike VM's
+//     thread list is simulated with its priority order; every thread carries
+//     concrete capture positions (input positions are concrete because string
+//     lengths are) and a symbolic liveness condition. The candidates that
+//     reach the final match are tried in priority order, forking on their
+//     conditions, which is exactly leftmost-first semantics.
+//
+// Character tests are derived from inst.MatchRune on the 128 ASCII values, so
+// case folding and classes are those of the real implementation.
+
+var nfaDebug = os.Getenv("GOSYM_NFADEBUG") != ""
+
+type progInfo struct {
+	prog   *syntax.Prog
+	sets   map[int][]([2]int) // pc -> ASCII ranges accepted
+	anchS  bool
+	anchE  bool
+	numCap int
+}
+
+func (re *reModel) info() *progInfo {
+	if re.pi != nil {
+		return re.pi
+	}
+	rx, err := syntax.Parse(re.pat, syntax.Perl)
+	if err != nil {
+		panic(abort("regexp model: " + err.Error()))
+	}
+	ncap := rx.MaxCap()
+	prog, err := syntax.Compile(rx.Simplify())
+	if err != nil {
+		panic(abort("regexp model: " + err.Error()))
+	}
+	pi := &progInfo{prog: prog, sets: map[int][]([2]int){}, numCap: ncap}
+	for pc := range prog.Inst {
+		in := &prog.Inst[pc]
+		switch in.Op {
+		case syntax.InstRune, syntax.InstRune1, syntax.InstRuneAny, syntax.InstRuneAnyNotNL:
+			var rs [][2]int
+			start := -1
+			for c := 0; c <= 128; c++ {
+				ok := c < 128 && in.MatchRune(rune(c))
+				if ok && start < 0 {
+					start = c
+				}
+				if !ok && start >= 0 {
+					rs = append(rs, [2]int{start, c - 1})
+					start = -1
+				}
+			}
+			pi.sets[pc] = rs
+		}
+	}
+	pi.anchS = prog.StartCond()&syntax.EmptyBeginText != 0
+	// anchored at the end: every path to Match passes an EndText assertion
+	pi.anchE = endAnchored(prog)
+	re.pi = pi
+	return pi
+}
+
+func endAnchored(prog *syntax.Prog) bool {
+	// conservative: true iff every InstMatch is only reachable through an
+	// EmptyWidth(EndText) instruction that directly precedes it
+	for pc := range prog.Inst {
+		in := &prog.Inst[pc]
+		outs := []uint32{}
+		switch in.Op {
+		case syntax.InstAlt, syntax.InstAltMatch:
+			outs = append(outs, in.Out, in.Arg)
+		case syntax.InstMatch, syntax.InstFail:
+		default:
+			outs = append(outs, in.Out)
+		}
+		for _, o := range outs {
+			if prog.Inst[o].Op == syntax.InstMatch {
+				if !(in.Op == syntax.InstEmptyWidth && syntax.EmptyOp(in.Arg)&syntax.EmptyEndText != 0) {
+					return false
+				}
+			}
+		}
+	}
+	return true
+}
+
+// byteDom records, for symbolic bytes created with a character class
+// (zzStringOf), the set of values the byte can take; the regexp model uses it
+// to decide class tests without the solver.
+var byteDomMu sync.Mutex
+var byteDom = map[*smt.T]*[128]bool{}
+
+func setByteDom(t *smt.T, d *[128]bool) {
+	byteDomMu.Lock()
+	byteDom[t] = d
+	byteDomMu.Unlock()
+}
+
+func getByteDom(t *smt.T) *[128]bool {
+	byteDomMu.Lock()
+	d := byteDom[t]
+	byteDomMu.Unlock()
+	return d
+}
+
+func byteIn(b *smt.T, rs [][2]int) *smt.T {
+	if d := getByteDom(b); d != nil {
+		any, all := false, true
+		var in [128]bool
+		for _, r := range rs {
+			for c := r[0]; c <= r[1] && c < 128; c++ {
+				in[c] = true
+			}
+		}
+		for c := 0; c < 128; c++ {
+			if d[c] {
+				if in[c] {
+					any = true
+				} else {
+					all = false
+				}
+			}
+		}
+		if !any {
+			return smt.False
+		}
+		if all {
+			return smt.True
+		}
+	}
+	var cs []*smt.T
+	for _, r := range rs {
+		if r[0] == r[1] {
+			cs = append(cs, smt.Eq(b, smt.I(int64(r[0]))))
+		} else {
+			cs = append(cs, smt.And(smt.Le(smt.I(int64(r[0])), b), smt.Le(b, smt.I(int64(r[1])))))
+		}
+	}
+	return smt.Or(cs...)
+}
+
+func (p *Path) strBytes(s Str) []*smt.T {
+	if s.HasAtom() {
+		panic(abort("unsupported: regexp on a string mixing symbolic bytes and opaque tokens"))
+	}
+	out := make([]*smt.T, 0, s.N)
+	for _, v := range s.toBytes() {
+		b := v.(*smt.T)
+		if c, ok := b.Int64(); ok && c >= 0x80 {
+			panic(abort("unsupported: non-ASCII constant in a symbolic regexp subject"))
+		}
+		p.assumeASCII(b)
+		out = append(out, b)
+	}
+	return out
+}
+
+// emptyOK evaluates an empty-width assertion at a concrete position.
+func emptyOK(op syntax.EmptyOp, pos, n int) (bool, bool) {
+	if op&(syntax.EmptyWordBoundary|syntax.EmptyNoWordBoundary) != 0 {
+		return false, false
+	}
+	if op&(syntax.EmptyBeginText|syntax.EmptyBeginLine) != 0 && pos != 0 {
+		// (?m) is not used by the patterns in scope; a line start elsewhere would need the previous byte
+		if op&syntax.EmptyBeginLine != 0 && op&syntax.EmptyBeginText == 0 {
+			return false, false
+		}
+		return false, true
+	}
+	if op&(syntax.EmptyEndText|syntax.EmptyEndLine) != 0 && pos != n {
+		if op&syntax.EmptyEndLine != 0 && op&syntax.EmptyEndText == 0 {
+			return false, false
+		}
+		return false, true
+	}
+	return true, true
+}
+
+// nfaMatch: Thompson simulation (no captures).
 func (p *Path) nfaMatch(re *reModel, s Str) *smt.T {
-	panic(abort("unsupported: regexp match on symbolic string (nfa model not built yet): " + re.pat))
+	pi := re.info()
+	bs := p.strBytes(s)
+	n := len(bs)
+	p.eng.noteUse("model: regexp = regexp/syntax program simulated over symbolic ASCII bytes (Thompson / Pike with symbolic thread liveness)")
+	prog := pi.prog
+	cur := map[int]*smt.T{}
+	var order []int
+	matched := smt.False
+	var add func(set map[int]*smt.T, ord *[]int, pc int, cond *smt.T, pos int, seen map[int]bool)
+	add = func(set map[int]*smt.T, ord *[]int, pc int, cond *smt.T, pos int, seen map[int]bool) {
+		if seen[pc] {
+			return
+		}
+		seen[pc] = true
+		in := &prog.Inst[pc]
+		switch in.Op {
+		case syntax.InstFail:
+		case syntax.InstAlt, syntax.InstAltMatch:
+			add(set, ord, int(in.Out), cond, pos, seen)
+			add(set, ord, int(in.Arg), cond, pos, seen)
+		case syntax.InstCapture, syntax.InstNop:
+			add(set, ord, int(in.Out), cond, pos, seen)
+		case syntax.InstEmptyWidth:
+			ok, known := emptyOK(syntax.EmptyOp(in.Arg), pos, n)
+			if !known {
+				panic(abort("unsupported: word-boundary or multi-line assertion in regexp model: " + re.pat))
+			}
+			if ok {
+				add(set, ord, int(in.Out), cond, pos, seen)
+			}
+		case syntax.InstMatch:
+			if !pi.anchE || pos == n {
+				matched = smt.Or(matched, cond)
+			}
+		default:
+			if old, ok := set[pc]; ok {
+				set[pc] = smt.Or(old, cond)
+			} else {
+				set[pc] = cond
+				*ord = append(*ord, pc)
+			}
+		}
+	}
+	add(cur, &order, prog.Start, smt.True, 0, map[int]bool{})
+	for i := 0; i < n; i++ {
+		next := map[int]*smt.T{}
+		var nord []int
+		for _, pc := range order {
+			c := smt.And(cur[pc], byteIn(bs[i], pi.sets[pc]))
+			if c == smt.False {
+				continue
+			}
+			// each source thread gets its own closure walk; conditions are or-ed per pc
+			add(next, &nord, int(prog.Inst[pc].Out), c, i+1, map[int]bool{})
+		}
+		if !pi.anchS {
+			add(next, &nord, prog.Start, smt.True, i+1, map[int]bool{})
+		}
+		cur, order = next, nord
+	}
+	return matched
 }
 
+type thr struct {
+	pc   int
+	caps []int
+	cond *smt.T
+}
+
+func capsKey(pc int, caps []int) string { return fmt.Sprint(pc, caps) }
+
+// nfaSubmatch: priority-ordered simulation for patterns anchored at both ends.
 func (p *Path) nfaSubmatch(re *reModel, s Str) Value {
-	panic(abort("unsupported: regexp submatch on symbolic string: " + re.pat))
+	pi := re.info()
+	if !pi.anchS || !pi.anchE {
+		panic(abort("unsupported: FindStringSubmatch on a symbolic string with an unanchored pattern: " + re.pat))
+	}
+	bs := p.strBytes(s)
+	n := len(bs)
+	p.eng.noteUse("model: regexp = regexp/syntax program simulated over symbolic ASCII bytes (Thompson / Pike with symbolic thread liveness)")
+	prog := pi.prog
+	ncap := 2 * (pi.numCap + 1)
+	var finals []thr
+	// addthread in priority order (depth-first like the Pike VM)
+	var add func(list *[]thr, idx map[string]int, pc int, caps []int, cond *smt.T, pos int, seen map[int]bool)
+	add = func(list *[]thr, idx map[string]int, pc int, caps []int, cond *smt.T, pos int, seen map[int]bool) {
+		if seen[pc] {
+			return
+		}
+		seen[pc] = true
+		in := &prog.Inst[pc]
+		switch in.Op {
+		case syntax.InstFail:
+		case syntax.InstAlt, syntax.InstAltMatch:
+			add(list, idx, int(in.Out), caps, cond, pos, seen)
+			add(list, idx, int(in.Arg), caps, cond, pos, seen)
+		case syntax.InstNop:
+			add(list, idx, int(in.Out), caps, cond, pos, seen)
+		case syntax.InstCapture:
+			if int(in.Arg) < ncap {
+				nc := append([]int(nil), caps...)
+				nc[in.Arg] = pos
+				add(list, idx, int(in.Out), nc, cond, pos, seen)
+			} else {
+				add(list, idx, int(in.Out), caps, cond, pos, seen)
+			}
+		case syntax.InstEmptyWidth:
+			ok, known := emptyOK(syntax.EmptyOp(in.Arg), pos, n)
+			if !known {
+				panic(abort("unsupported: word-boundary or multi-line assertion in regexp model: " + re.pat))
+			}
+			if ok {
+				add(list, idx, int(in.Out), caps, cond, pos, seen)
+			}
+		case syntax.InstMatch:
+			if pos == n {
+				k := capsKey(-1, caps)
+				if j, ok := idx[k]; ok {
+					(*list)[j].cond = smt.Or((*list)[j].cond, cond)
+				} else {
+					idx[k] = len(*list)
+					*list = append(*list, thr{pc: pc, caps: caps, cond: cond})
+				}
+			}
+		default:
+			k := capsKey(pc, caps)
+			if j, ok := idx[k]; ok {
+				(*list)[j].cond = smt.Or((*list)[j].cond, cond)
+			} else {
+				idx[k] = len(*list)
+				*list = append(*list, thr{pc: pc, caps: caps, cond: cond})
+			}
+		}
+	}
+	init := make([]int, ncap)
+	for i := range init {
+		init[i] = -1
+	}
+	var cur []thr
+	add(&cur, map[string]int{}, prog.Start, init, smt.True, 0, map[int]bool{})
+	for i := 0; i < n; i++ {
+		var next []thr
+		idx := map[string]int{}
+		for _, t := range cur {
+			if prog.Inst[t.pc].Op == syntax.InstMatch {
+				continue
+			}
+			c := smt.And(t.cond, byteIn(bs[i], pi.sets[t.pc]))
+			if c == smt.False {
+				continue
+			}
+			add(&next, idx, int(prog.Inst[t.pc].Out), t.caps, c, i+1, map[int]bool{})
+		}
+		cur = next
+		if nfaDebug {
+			fmt.Fprintf(os.Stderr, "nfa step %d/%d threads=%d\n", i, n, len(cur))
+		}
+		if len(cur) > 20000 {
+			panic(abort("regexp model: more than 20000 threads"))
+		}
+	}
+	for _, t := range cur {
+		if prog.Inst[t.pc].Op == syntax.InstMatch {
+			finals = append(finals, t)
+		}
+	}
+	if n == 0 {
+		// the initial closure may already contain a match
+		for _, t := range cur {
+			if prog.Inst[t.pc].Op == syntax.InstMatch {
+				_ = t
+			}
+		}
+	}
+	for _, t := range finals {
+		if p.Branch(t.cond) {
+			out := make([]Value, ncap/2)
+			for g := range out {
+				lo, hi := t.caps[2*g], t.caps[2*g+1]
+				if g == 0 {
+					lo, hi = 0, n
+				}
+				if lo < 0 || hi < 0 {
+					out[g] = Str{}
+				} else {
+					out[g] = s.Slice(lo, hi)
+				}
+			}
+			return out
+		}
+	}
+	return []Value(nil)
 }
 
+// nfaReplaceAll supports patterns that match exactly one character (a class):
+// every byte is replaced independently.
 func (p *Path) nfaReplaceAll(re *reModel, s, repl Str) Value {
-	panic(abort("unsupported: regexp replace on symbolic string: " + re.pat))
+	rx, err := syntax.Parse(re.pat, syntax.Perl)
+	if err != nil {
+		panic(abort("regexp model: " + err.Error()))
+	}
+	rx = rx.Simplify()
+	if rx.Op != syntax.OpCharClass && rx.Op != syntax.OpLiteral && rx.Op != syntax.OpAnyChar && rx.Op != syntax.OpAnyCharNotNL {
+		panic(abort("unsupported: ReplaceAllString with a multi-character pattern on a symbolic string: " + re.pat))
+	}
+	if rx.Op == syntax.OpLiteral && len(rx.Rune) != 1 {
+		panic(abort("unsupported: ReplaceAllString with a multi-character pattern on a symbolic string: " + re.pat))
+	}
+	rc, ok := repl.Concrete()
+	if !ok || len(rc) != 1 {
+		panic(abort("unsupported: ReplaceAllString replacement must be one concrete character in the model"))
+	}
+	pi := re.info()
+	// the single rune instruction of the program
+	var rs [][2]int
+	for _, r := range pi.sets {
+		rs = r
+	}
+	var bl builder
+	for _, g := range s.Segs {
+		switch {
+		case g.A != nil:
+			// tokens are alphanumeric: representative decides
+			rep, _ := atomRepresentative(Str{Segs: []Seg{g}, N: g.A.Len})
+			if re.re.MatchString(rep[:1]) {
+				panic(abort("unsupported: ReplaceAllString would rewrite an opaque token"))
+			}
+			bl.addSeg(g)
+		case g.B != nil:
+			p.assumeASCII(g.B)
+			bl.addByte(smt.Ite(byteIn(g.B, rs), smt.I(int64(rc[0])), g.B))
+		default:
+			bl.addSeg(Seg{S: re.re.ReplaceAllString(g.S, rc)})
+		}
+	}
+	return bl.str()
 }
